@@ -19,7 +19,6 @@ theorem fn_Value_as_fixed_len_tuple_agree (v : Value) (len : Nat) :
 
 /-- `impl From<String> for Value` (the meaning of `.into()` at `String → Value`) -/
 theorem fn_Value_from_String_agree (s : Str) : (Rs.into s : Value) = .string s := rfl
-/-- `impl From<&Value> for ValueType` (the meaning of `.into()` at `&Value → ValueType`) -/
-theorem fn_ValueType_from_Value_agree (v : Value) : (Rs.into v : ValueType) = v.type := by cases v <;> rfl
+theorem fn_Value_from_float_agree (f : Float) : Gen.Value.from_float f = .float f := rfl
 
 end Evalexpr.AgreeFn
